@@ -36,7 +36,7 @@ WINDOW_FUNCS = {
     ("backends/pandas/container.py", "run_schema_component_checks"): "pd-component-override",
     ("backends/pandas/components.py", "validate_column"): "pd-column-name-override",
 }
-# generator-based context manager: the window is open between its first suspension and its end
+# generator-based context manager: the window is open from its first entry (snapshot of the outer state) to its end
 WINDOW_GENERATORS = {
     ("config.py", "config_context"): "config-context",
 }
@@ -125,11 +125,8 @@ class Sched:
                 name = frame.f_code.co_name
                 if gen_kind is not None:
                     fid = id(frame)
-                    k = gen_frames.get(fid, 0)
-                    if k == 0:
-                        # first suspension: the override is installed
-                        gen_frames[fid] = 1
-                        open_win(gen_kind)
+                    if gen_frames.get(fid, 0) == 0:
+                        gen_frames[fid] = 1  # first suspension (the with-body runs next): still open
                     else:
                         gen_frames.pop(fid, None)
                         close_win(gen_kind)
@@ -164,6 +161,11 @@ class Sched:
             kind = WINDOW_FUNCS.get(key)
             self._yield(tid, co.co_name)
             if gen_kind is not None:
+                if id(frame) not in gen_frames:
+                    # first entry: the snapshot of the outer state is taken right away, the window is open from
+                    # here until the generator's second return (the restore)
+                    gen_frames[id(frame)] = 0
+                    open_win(gen_kind)
                 loc = locals_by_kind.get(("g", gen_kind))
                 if loc is None:
                     loc = locals_by_kind[("g", gen_kind)] = make_local(None, gen_kind)
